@@ -108,20 +108,20 @@ theorem DirEntryEditor.setAccessed_data (ed : DirEntryEditor) (d : Date) :
 
 /-! ### (1) `create_sfn_entry` -/
 
-/-- the whole run: one `now`, no device call, cannot fail -/
+/-- the whole run: clock reads only, no device call, cannot fail, the device is left exactly as it was -/
 theorem createSfnEntry_run (sn : List Nat) (attrs : Nat) (first : Option Nat) (d : Dev) :
     run (createSfnEntry sn attrs first) d =
       (.ok (((((DirFileEntryData.new sn attrs).setFirstCluster first d.fs.fatType).setCreated
           (clockDateTime d.clock)).setAccessed (clockDateTime d.clock).date).setModified (clockDateTime d.clock)),
-       tickOnce d) := by
-  simp only [createSfnEntry, bind, pure, Prog.getFs, Prog.now, run, stepOp, tickOnce]
+       d) := by
+  simp only [createSfnEntry, bind, pure, Prog.getFs, Prog.now, run, stepOp]
 
 /-! ### `update_dir_entry_after_write` -/
 
 theorem updateAfterWrite_spec (f : FileH) (d : Dev) {r : Except Err FileH} {d' : Dev}
     (hr : run f.updateAfterWrite d = (r, d')) :
     (f.entry = none → r = .ok f ∧ d' = d) ∧
-    (∀ e, f.entry = some e → d' = tickOnce d ∧ ∃ f' e', r = .ok f' ∧ f'.entry = some e' ∧
+    (∀ e, f.entry = some e → d' = d ∧ ∃ f' e', r = .ok f' ∧ f'.entry = some e' ∧
       f' = { f with entry := some e' } ∧
       e'.data.modified = ⟨(clockDateTime d.clock).date, (clockDateTime d.clock).time.round2s⟩ ∧
       e'.data.created = e.data.created ∧ e'.data.accessed = e.data.accessed ∧ e'.pos = e.pos) := by
@@ -133,7 +133,7 @@ theorem updateAfterWrite_spec (f : FileH) (d : Dev) {r : Except Err FileH} {d' :
     rcases run_bind_cases hr with ⟨t, d1, h1, h2⟩ | ⟨e', h1, _⟩
     · rw [run_now] at h1
       cases h1
-      have h2' : run (Prog.pure _) (tickOnce d) = (r, d') := h2
+      have h2' : run (Prog.pure _) d = (r, d') := h2
       simp only [run] at h2'
       cases h2'
       refine ⟨rfl, _, _, rfl, rfl, rfl, ?_⟩
@@ -186,39 +186,39 @@ theorem SameStamps.none_inv {b : Option DirEntryEditor} (h : SameStamps none b) 
   | none => rfl
   | some y => simp [SameStamps] at h
 
-/-- `File::write`, successful.  Returning 0: the clock was not read and the handle's time fields are as before.
-    Returning `n > 0` on a handle with a directory entry: the clock was read exactly once (its value is the `d.clock`
-    the call started with), the entry's modified stamp reads back that value at 2 s resolution, created / accessed
-    and the entry position are untouched.  The root directory handle (no entry) never reads the clock. -/
+/-- `File::write`, successful.  The clock is never changed.  Returning 0: the handle's time fields are as before.
+    Returning `n > 0` on a handle with a directory entry: the entry's modified stamp reads back the operation's clock
+    value `d.clock` at 2 s resolution, created / accessed and the entry position are untouched. -/
 theorem write_stamps (f : FileH) (buf : List Nat) (d : Dev) {n : Nat} {f' : FileH} {d' : Dev}
     (hr : run (f.write buf) d = (.ok (n, f'), d')) :
-    (n = 0 → SameClock d d' ∧ SameStamps f.entry f'.entry) ∧
+    SameClock d d' ∧
+    (n = 0 → SameStamps f.entry f'.entry) ∧
     (0 < n →
-      (f.entry = none → f'.entry = none ∧ SameClock d d') ∧
+      (f.entry = none → f'.entry = none) ∧
       (∀ e, f.entry = some e →
-        d'.clock = (tickOnce d).clock ∧ d'.tick = d.tick ∧
         ∃ e', f'.entry = some e' ∧
           e'.data.modified = ⟨(clockDateTime d.clock).date, (clockDateTime d.clock).time.round2s⟩ ∧
           e'.data.created = e.data.created ∧ e'.data.accessed = e.data.accessed ∧ e'.pos = e.pos)) := by
+  refine ⟨run_sameClock hr, ?_⟩
   unfold FileH.write at hr
   rcases run_bind_cases hr with ⟨fs, d0, h0, hr⟩ | ⟨e, _, he⟩
   rotate_left
   · cases he
-  have c0 : SameClock d d0 := NoClock.out NoClock.progGetFs h0
+  have c0 : SameClock d d0 := run_sameClock h0
   dsimp only at hr
   split at hr
   · have hr' : run (Prog.pure ((0 : Nat), f)) d0 = (.ok (n, f'), d') := hr
     simp only [run] at hr'; cases hr'
-    exact ⟨fun _ => ⟨c0, SameStamps.refl _⟩, fun h => by omega⟩
+    exact ⟨fun _ => SameStamps.refl _, fun h => by omega⟩
   · rcases run_bind_cases hr with ⟨_, d1, h1, hr⟩ | ⟨e, _, he⟩
     rotate_left
     · cases he
-    have c1 : SameClock d0 d1 := NoClock.out (setDirtyFlag_noClock true) h1
+    have c1 : SameClock d0 d1 := run_sameClock h1
     rcases run_bind_cases hr with ⟨⟨cur, f1⟩, d2, hsel, hr⟩ | ⟨e, _, he⟩
     rotate_left
     · cases he
     have c2 : SameClock d1 d2 :=
-      NoClock.out (by noclock [FileH.boundaryCluster_noClock, allocClusterFs_noClock]) hsel
+      run_sameClock hsel
     have hst : SameStamps f.entry f1.entry := by
       split at hsel
       · rcases run_bind_cases hsel with ⟨nxt, dA, _, hB⟩ | ⟨e, _, he⟩
@@ -247,22 +247,22 @@ theorem write_stamps (f : FileH) (buf : List Nat) (d : Dev) {n : Nat} {f' : File
     rcases run_bind_cases hr with ⟨off, d3, h3, hr⟩ | ⟨e, _, he⟩
     rotate_left
     · cases he
-    have c3 : SameClock d2 d3 := NoClock.out (offsetFromClusterP_noClock _ _) h3
+    have c3 : SameClock d2 d3 := run_sameClock h3
     rcases run_bind_cases hr with ⟨_, d4, h4, hr⟩ | ⟨e, _, he⟩
     rotate_left
     · cases he
-    have c4 : SameClock d3 d4 := NoClock.out (NoClock.progSeekStart _) h4
+    have c4 : SameClock d3 d4 := run_sameClock h4
     rcases run_bind_cases hr with ⟨m, d5, hw, hr⟩ | ⟨e, _, he⟩
     rotate_left
     · cases he
-    have c5 : SameClock d4 d5 := NoClock.out (NoClock.progWrite _) hw
+    have c5 : SameClock d4 d5 := run_sameClock hw
     have c05 : SameClock d d5 :=
       sameClock_ok.trans _ _ _ c0 (sameClock_ok.trans _ _ _ c1 (sameClock_ok.trans _ _ _ c2
         (sameClock_ok.trans _ _ _ c3 (sameClock_ok.trans _ _ _ c4 c5))))
     split at hr
     · have hr' : run (Prog.pure ((0 : Nat), f1)) d5 = (.ok (n, f'), d') := hr
       simp only [run] at hr'; cases hr'
-      exact ⟨fun _ => ⟨c05, hst⟩, fun h => by omega⟩
+      exact ⟨fun _ => hst, fun h => by omega⟩
     · rename_i hm
       rcases run_bind_cases hr with ⟨f2, d6, hu, hr⟩ | ⟨e, _, he⟩
       rotate_left
@@ -275,27 +275,27 @@ theorem write_stamps (f : FileH) (buf : List Nat) (d : Dev) {n : Nat} {f' : File
         have h1n := hst.none_inv
         obtain ⟨hf2, hd6⟩ := hsp.1 h1n
         cases hf2
-        exact ⟨h1n, by rw [hd6]; exact c05⟩
+        exact h1n
       · rw [he] at hst
         obtain ⟨e1, he1, htf, hpos⟩ := hst.some_inv
         obtain ⟨hd6, f3, e', hf3, he', _, hmod, hcr, hac, hp⟩ := hsp.2 e1 he1
         cases hf3
         obtain ⟨g1, g2, _⟩ := DirFileEntryData.getters_of_timeFields htf
-        refine ⟨?_, ?_, e', he', ?_, hcr.trans g1, hac.trans g2, hp.trans hpos⟩
-        · rw [hd6, tickOnce_clock, tickOnce_clock, c05.1, c05.2]
-        · rw [hd6, (tickOnce_frame d5).1, c05.2]
-        · rw [hmod, c05.1]
+        refine ⟨e', he', ?_, hcr.trans g1, hac.trans g2, hp.trans hpos⟩
+        rw [hmod, c05.1]
 
 /-! ### (3) `File::read` -/
 
-/-- `File::read`, successful: either the handle's editor is untouched and the clock was not read, or — only with the
-    `update_accessed_date` option on, only when data was returned, only on a handle with a directory entry — the
-    clock was read exactly once (`today`) and the editor went through `set_accessed(date of that clock value)`. -/
+/-- `File::read`, successful: the clock is never changed; either the handle's editor is untouched, or — only with
+    the `update_accessed_date` option on, only when data was returned, only on a handle with a directory entry — the
+    editor went through `set_accessed(date of the operation's clock value)`. -/
 theorem read_stamps (f : FileH) (n : Nat) (d : Dev) {bs : List Nat} {f' : FileH} {d' : Dev}
     (hr : run (f.read n) d = (.ok (bs, f'), d')) :
-    (f'.entry = f.entry ∧ SameClock d d') ∨
-    (d.fs.accDate = true ∧ bs ≠ [] ∧ ∃ e, f.entry = some e ∧
-      f'.entry = some (e.setAccessed (clockDate d.clock)) ∧ d'.clock = (tickOnce d).clock ∧ d'.tick = d.tick) := by
+    SameClock d d' ∧
+    (f'.entry = f.entry ∨
+     (d.fs.accDate = true ∧ bs ≠ [] ∧ ∃ e, f.entry = some e ∧
+       f'.entry = some (e.setAccessed (clockDate d.clock)))) := by
+  refine ⟨run_sameClock hr, ?_⟩
   unfold FileH.read at hr
   rcases run_bind_cases hr with ⟨fs, d0, h0, hr⟩ | ⟨e, _, he⟩
   rotate_left
@@ -306,11 +306,11 @@ theorem read_stamps (f : FileH) (n : Nat) (d : Dev) {bs : List Nat} {f' : FileH}
   rcases run_bind_cases hr with ⟨curOpt, d1, hcur, hr⟩ | ⟨e, _, he⟩
   rotate_left
   · cases he
-  have c1 : SameClock d d1 := NoClock.out (by noclock [FileH.boundaryCluster_noClock]) hcur
+  have c1 : SameClock d d1 := run_sameClock hcur
   split at hr
   · have hr' : run (Prog.pure (([] : List Nat), f)) d1 = (.ok (bs, f'), d') := hr
     simp only [run] at hr'; cases hr'
-    exact Or.inl ⟨rfl, c1⟩
+    exact Or.inl rfl
   · rename_i cur
     split at hr
     · have hr' : run (Prog.fail .panic) d1 = (.ok (bs, f'), d') := hr
@@ -318,25 +318,25 @@ theorem read_stamps (f : FileH) (n : Nat) (d : Dev) {bs : List Nat} {f' : FileH}
     · split at hr
       · have hr' : run (Prog.pure (([] : List Nat), f)) d1 = (.ok (bs, f'), d') := hr
         simp only [run] at hr'; cases hr'
-        exact Or.inl ⟨rfl, c1⟩
+        exact Or.inl rfl
       · rcases run_bind_cases hr with ⟨off, d2, h2, hr⟩ | ⟨e, _, he⟩
         rotate_left
         · cases he
-        have c2 : SameClock d1 d2 := NoClock.out (offsetFromClusterP_noClock _ _) h2
+        have c2 : SameClock d1 d2 := run_sameClock h2
         rcases run_bind_cases hr with ⟨_, d3, h3, hr⟩ | ⟨e, _, he⟩
         rotate_left
         · cases he
-        have c3 : SameClock d2 d3 := NoClock.out (NoClock.progSeekStart _) h3
+        have c3 : SameClock d2 d3 := run_sameClock h3
         rcases run_bind_cases hr with ⟨bs1, d4, h4, hr⟩ | ⟨e, _, he⟩
         rotate_left
         · cases he
-        have c4 : SameClock d3 d4 := NoClock.out (NoClock.progRead _) h4
+        have c4 : SameClock d3 d4 := run_sameClock h4
         have c04 : SameClock d d4 :=
           sameClock_ok.trans _ _ _ c1 (sameClock_ok.trans _ _ _ c2 (sameClock_ok.trans _ _ _ c3 c4))
         split at hr
         · have hr' : run (Prog.pure (([] : List Nat), f)) d4 = (.ok (bs, f'), d') := hr
           simp only [run] at hr'; cases hr'
-          exact Or.inl ⟨rfl, c04⟩
+          exact Or.inl rfl
         · rename_i hlen
           split at hr
           · rename_i e he
@@ -347,19 +347,17 @@ theorem read_stamps (f : FileH) (n : Nat) (d : Dev) {bs : List Nat} {f' : FileH}
               · rw [run_today] at h5; cases h5
               rw [run_today] at h5
               cases h5
-              have hr' : run (Prog.pure (bs1, _)) (tickOnce d4) = (.ok (bs, f'), d') := hr
+              have hr' : run (Prog.pure (bs1, _)) d4 = (.ok (bs, f'), d') := hr
               simp only [run] at hr'; cases hr'
-              refine Or.inr ⟨hacc, ?_, e, he, ?_, ?_, ?_⟩
+              refine Or.inr ⟨hacc, ?_, e, he, ?_⟩
               · intro hb; rw [hb] at hlen; exact hlen rfl
               · rw [c04.1]
-              · rw [tickOnce_clock, tickOnce_clock, c04.1, c04.2]
-              · rw [(tickOnce_frame d4).1, c04.2]
             · have hr' : run (Prog.pure (bs1, _)) d4 = (.ok (bs, f'), d') := hr
               simp only [run] at hr'; cases hr'
-              exact Or.inl ⟨rfl, c04⟩
+              exact Or.inl rfl
           · have hr' : run (Prog.pure (bs1, _)) d4 = (.ok (bs, f'), d') := hr
             simp only [run] at hr'; cases hr'
-            exact Or.inl ⟨rfl, c04⟩
+            exact Or.inl rfl
 
 /-! ### (5) rename -/
 
